@@ -15,7 +15,7 @@ class Spec(pipeprops.PropSpec):
             "instances and some non-typing triple")
 
     def gen_cases(self, tier, rnd):
-        return pipeprops.gen_basic(tier, rnd, 800, 15000)
+        return pipeprops.gen_basic(tier, rnd, 2500, 40000)
 
     def oracle(self, case, impl):
         ts, cfg = case["runs"][0]
